@@ -43,6 +43,11 @@ CLAIMED = {
             "Trusted: source double (PSYNC admission written from replication.c), Output stub semantics, keyed byte functions. Memory cache only; the real RedisOutput/target are replaced by the stub in this check.",
             "deterministic simulation with a PSYNC-speaking source double + byte-exact continuation oracle",
             "DESIGN.md §3 C06"),
+    "C14": ("fault_enumeration",
+            "Bidirectional incremental replay (sync, pipeline, parallel) on the real RedisOutput under sampled crashes, graceful stop/start without traffic, and, for short recorded runs, a crash after EVERY prefix of the target's request sequence (including start-up recovery's own reads/clean-up). Oracle from the property: each restart resumes at the end of a committed unit whose predecessors are all committed (sync: the last one, nothing applied twice), never backwards, one whole unit + recovery record per target transaction, nothing missing after the final drain.",
+            "Trusted: Redis double (MULTI/EXEC atomicity, hash/zset/expiry semantics for the bookkeeping keys), unit derivation from the documented rules. Standalone target only.",
+            "deterministic simulation + crash-point enumeration over the target's request sequence",
+            "DESIGN.md §3 C14"),
 }
 
 NOT_APPLICABLE = {
